@@ -383,6 +383,34 @@ func init() {
 			return buf.Bytes(), err
 		}},
 	}
+	// header maps holding the SAME field name under several case spellings (only possible by direct
+	// map assignment): whatever the serializer does with them - refuse, or fold them - it must do
+	// the same every time and for every insertion order
+	caseNames := []string{"X-Variant", "x-variant", "X-VARIANT", "Content-Type"}
+	caseHdr := func(order []int) http.Header {
+		h := http.Header{}
+		for _, i := range order {
+			h[caseNames[i]] = []string{vals[i]}
+		}
+		return h
+	}
+	permCases = append(permCases,
+		permCase{"DumpExchangeHeaders(1b3) names differing only in case", 4, func(o []int) ([]byte, error) {
+			e := signedexchange.NewExchange(sxgversion.Version1b3, "https://a.test/", "GET", nil, 200, caseHdr(o), nil)
+			var buf bytes.Buffer
+			err := e.DumpExchangeHeaders(&buf)
+			return buf.Bytes(), err
+		}},
+		permCase{"DumpExchangeHeaders(1b1) request names differing only in case", 4, func(o []int) ([]byte, error) {
+			e := signedexchange.NewExchange(sxgversion.Version1b1, "https://a.test/", "GET", caseHdr(o), 200, http.Header{}, nil)
+			var buf bytes.Buffer
+			err := e.DumpExchangeHeaders(&buf)
+			return buf.Bytes(), err
+		}},
+		permCase{"Response.EncodeHeader names differing only in case", 4, func(o []int) ([]byte, error) {
+			return bundle.Response{Status: 200, Header: caseHdr(o)}.EncodeHeader()
+		}},
+	)
 	permH := &mc.Harness{
 		Name:      "C18/permutations",
 		NoConfirm: true,
@@ -392,15 +420,27 @@ func init() {
 			ps := perms(k)
 			order := ps[c.Free(len(ps), "insertion-order")]
 			ident := ps[0]
-			base, err := pc.ser(ident)
-			if err != nil {
-				c.Fail("C18/perm:"+pc.name+":baseline", "serializer failed", pc.name, "nil", err.Error())
+			// (these inputs may be refused; then they must be refused identically every time)
+			mayFail := strings.Contains(pc.name, "differing only in case")
+			base, berr := pc.ser(ident)
+			if berr != nil && !mayFail {
+				c.Fail("C18/perm:"+pc.name+":baseline", "serializer failed", pc.name, "nil", berr.Error())
 				return
 			}
+			if berr != nil {
+				base = []byte("error: " + berr.Error()) // a refusal is an outcome too: it must be the same every time
+			}
 			base = append([]byte{}, base...)
-			for rep := 0; rep < 6; rep++ {
+			reps := 6
+			if mayFail {
+				reps = 24
+			}
+			for rep := 0; rep < reps; rep++ {
 				got, err := pc.ser(order)
 				c.Transitions(1)
+				if err != nil && mayFail {
+					got, err = []byte("error: "+err.Error()), nil
+				}
 				if err != nil || !bytes.Equal(got, base) {
 					c.Outcome("DIFFERENT BYTES")
 					c.Fail(fmt.Sprintf("C18/perm:%s:order=%v", pc.name, order), "output depends on map insertion order / differs between repeated calls", fmt.Sprintf("%s with %d entries inserted in order %v (repetition)", pc.name, k, order), hx(base), fmt.Sprintf("%s err=%v", hx(got), err))
@@ -775,7 +815,7 @@ func init() {
 	register(&mc.Property{
 		ID:    "C18",
 		Level: "model_checking",
-		Rule:  "four parts. permutations: 9 serializers x maps of 1..4 entries x every insertion permutation x 6 repeated calls, all bytes equal to the identity-order baseline. histories: every sequence of <=2 (quick) / <=3 (thorough) operations from 18 serializer calls + 4 input mutations + 25 calls whose destination fails at a chosen Write, on one shared world; each output = the same call on a freshly built world in the same logical state, input memory (incl. spare capacity) unchanged, earlier returned slices unchanged. schedules: every unordered pair of the 18 serializer calls as 2 logical threads (thorough: plus every ascending triple of 8 core calls as 3 threads, and every 2-call thread against a 1-call thread over those 8) on shared inputs, ALL interleavings at hooked operations (verifhook.Point sites, every Write of the harness-owned writer) with at most 2 preemptions; each thread's bytes = its solo bytes. races (auxiliary): every ordered pair as free-running goroutines in a -race build. Non-trivial = >=2 map entries / non-empty history / a complete schedule; distinct by (scenario, vector).",
+		Rule:  "four parts. permutations: 12 serializer inputs (3 of them header maps holding one name under several case spellings, where a refusal must be the same refusal every time) x maps of 1..4 entries x every insertion permutation x 6 repeated calls, all bytes equal to the identity-order baseline. histories: every sequence of <=2 (quick) / <=3 (thorough) operations from 18 serializer calls + 4 input mutations + 25 calls whose destination fails at a chosen Write, on one shared world; each output = the same call on a freshly built world in the same logical state, input memory (incl. spare capacity) unchanged, earlier returned slices unchanged. schedules: every unordered pair of the 18 serializer calls as 2 logical threads (thorough: plus every ascending triple of 8 core calls as 3 threads, and every 2-call thread against a 1-call thread over those 8) on shared inputs, ALL interleavings at hooked operations (verifhook.Point sites, every Write of the harness-owned writer) with at most 2 preemptions; each thread's bytes = its solo bytes. races (auxiliary): every ordered pair as free-running goroutines in a -race build. Non-trivial = >=2 map entries / non-empty history / a complete schedule; distinct by (scenario, vector).",
 		Assumptions: []string{
 			"Go map iteration order is runtime-internal and not behind a seam: order-independence is decided by enumerating every insertion permutation (small maps iterate as rotations of insertion order) with repeated calls, not by controlling the iteration",
 			"the cooperative scheduler explores interleavings at hooked operations only; unsynchronised accesses between hooks are the race detector's job (separate free-running -race pass, auxiliary evidence, not model checking)",
